@@ -27,7 +27,7 @@ Movers(g, o, Dom) == {s \in Dom : g.owner[s] = o /\ Len(g.tr[s]) > 0}
 \* the row of the Markov chain induced by choice c
 Row(g, c, s) == IF g.owner[s] = PR \/ Len(g.tr[s]) = 0 THEN g.tr[s]
                 ELSE <<Tr("", 1, g.tr[s][c[s]].t)>>
-CSucc(g, c, s) == LET r == Row(g, c, s) IN {r[k].t : k \in DOMAIN r}
+CSucc(g, c, s) == LET r == Row(g, c, s) IN {r[k].t : k \in {k \in DOMAIN r : r[k].w > 0}}
 
 RECURSIVE SumWTo(_, _, _)
 SumWTo(row, k, T) == IF k = 0 THEN 0
